@@ -184,22 +184,21 @@ def run(world, rep, tier, only=None):
             fr = calls_to(f, "rb_free_extent")
             full = [x for x in f.nodes() if x in resets(f, "rcursor")] and [x for x in f.nodes() if x in resets(f, "wcursor")]
             ok = f.must_pass_after(n, fr) if fr else False
+
+            def around_ok(cf, cn):
+                rr, ww = resets(cf, "rcursor"), resets(cf, "wcursor")
+                if rr and ww and ((cf.must_pass_after(cn, rr) and cf.must_pass_after(cn, ww)) or
+                                  (cf.dominated_by(cn, rr) and cf.dominated_by(cn, ww))):
+                    return True     # cursors are NULL around the erase
+                # the whole private structure is released afterwards
+                frees = [x for x in calls_to(cf, "ext2fs_free_mem") if T.path(arg(x, 0)) == "bp"]
+                return bool(frees) and cf.must_pass_after(cn, frees)
             if not ok:
-                # unconditional resets in this function or in every caller after the call
-                rs = resets(f, "rcursor") + resets(f, "wcursor")
-                ok = bool(resets(f, "rcursor")) and bool(resets(f, "wcursor")) and \
-                    f.must_pass_after(n, resets(f, "rcursor")) and f.must_pass_after(n, resets(f, "wcursor"))
+                # unconditional resets (or release of the structure) in this function or in every caller after the call
+                ok = around_ok(f, n)
                 if not ok:
                     callers = [(cf, cn) for (cf, cn) in prog.callers().get(f.key, []) if cf.file == RB]
-                    def caller_ok(cf, cn):
-                        rr, ww = resets(cf, "rcursor"), resets(cf, "wcursor")
-                        if rr and ww and ((cf.must_pass_after(cn, rr) and cf.must_pass_after(cn, ww)) or
-                                          (cf.dominated_by(cn, rr) and cf.dominated_by(cn, ww))):
-                            return True     # cursors are NULL around the erase
-                        # the whole private structure is released afterwards
-                        frees = [x for x in calls_to(cf, "ext2fs_free_mem") if T.path(arg(x, 0)) == "bp"]
-                        return bool(frees) and cf.must_pass_after(cn, frees)
-                    ok = bool(callers) and all(caller_ok(cf, cn) for (cf, cn) in callers)
+                    ok = bool(callers) and all(around_ok(cf, cn) for (cf, cn) in callers)
             rep.ob("C16.b", site(f, "erased node's cursors invalidated#%d" % i), ok,
                    "ext2fs_rb_erase is followed on every path by rb_free_extent() or by resets of rcursor and wcursor")
     rep.floor("C16.b erase sites", n_er, 4)
